@@ -240,7 +240,9 @@ def check(run, F, tier):
                     ln2 = lin.len_of(("ref", ("arg", an), ())) if byref else lin.len_of(("sym", ("arg", an)))
                     facts = lin.facts_of_path(p) + consumed_facts(F, p, lin, expand)
                     q = linear.lin_add(cons, ln2, -1)
-                    if not linear.entails(facts + linear.aux_facts(lin, facts + [q]), q):
+                    if not linear.entails(facts + linear.aux_facts(lin, facts + [q]), q) and not linear.infeasible(facts):
+                        # (a path whose own facts are inconsistent - the `None` arm of a checked `get(cursor..)` after the
+                        # cursor was already proved in range - is not an execution)
                         bad = (p, "consumed <= len(%s) not proved" % an)
             key = panics.short_fn(path)
             if nok and not arg_idx:
